@@ -975,7 +975,10 @@ impl<'a> Explorer<'a> {
                 }
             }
         } else {
-            let chunks = if !key.rs.decided && !self.chunks_undecided.is_empty() {
+            // BOM-ish symbols are offered while the reference is undecided and, in every BOM mode,
+            // at the very start of the stream (a BOM-removal decoder of another encoding must
+            // pass EF BB BF / FE FF / FF FE through: there the reference is decided from the start)
+            let chunks = if (!key.rs.decided || id == 1) && !self.chunks_undecided.is_empty() {
                 &self.chunks_undecided
             } else if key.rs.used != crate::spec::dec::Used::Nominal && !self.chunks_switched.is_empty() {
                 &self.chunks_switched
